@@ -19,6 +19,11 @@ def expectedFrom (prev : Pos) : List (G1W × Rat) → List Move
     (if posOf w = prev then [] else [{ src := prev, dst := posOf w, feed := w.f, shutter := decide (s = 1), g9 := false }])
       ++ expectedFrom (posOf w) rest
 
+/-- where the machine stands after the points of a matrix have been visited from `prev`: the last printed position -/
+def lastPos (prev : Pos) : List (G1W × Rat) → Pos
+  | [] => prev
+  | (w, _) :: rest => lastPos (posOf w) rest
+
 /-- the printed words of the points of a matrix (what `_format_args` produces for each transformed point) -/
 def printed (cfg : Cfg) (m : List Pt) : Except Err (List (G1W × Rat)) := m.mapM (formatPt cfg)
 
